@@ -377,6 +377,8 @@ fn oracle(c: &Case, ctx: &mut Ctx) -> CaseResult {
 }
 
 fn main() {
+	netsim::rec::tolerate_observations();
+	netsim::rec::tolerate_monitor_roundtrip_tripwire();
 	let mut c = Check::new("C11", "exploration");
 	c.assume("replicas are deterministic re-executions of the whole scenario (same seeds and keys), not restores of one serialized image; a case whose prefix does not reproduce identically (funding / commitment txids, pending HTLCs) is discarded");
 	c.assume("the block tree is built once by replica 0 (plain block_connected / blocks_disconnected(fork point)) from the transactions its nodes broadcast, checked by the consensus simulator; every replica is given the identical blocks (competing blocks have distinct hashes), only the observed node's Listen/Confirm call schedule differs; the other nodes always see every block in one fixed ConnectStyle");
